@@ -23,7 +23,9 @@ RULE = ("Four generated case kinds, all comparing bytes of (xform, warnings, ite
         "the answer a fresh process gives for that form, the worker's private TMPDIR must be empty and a deep snapshot of pyxform's "
         "module-level tables must equal the snapshot taken at import after every step; (threads) K in {2,3,4} conversions in K threads of "
         "one worker under a harness-owned schedule (a sys.setprofile hook on pyxform call events hands a baton according to a generated "
-        "list of (gap, next-thread) pairs), each answer compared with the fresh-process answer; (stress) free-running threads with "
+        "list of (gap, next-thread) pairs), and again under race-directed schedules in pristine child processes (cold caches): the function at a "
+        "sampled call event of the first job's own trace becomes the switch point, and every entry of it hands the baton to the next thread; "
+        "each answer compared with the fresh-process answer; (stress) free-running threads with "
         "switch interval 1e-6. Non-trivial = seeds: the form is accepted; history: >= 1 form converted again after a different form and "
         ">= 1 regeneration; threads: >= 3 context switches actually taken between conversions of different forms; distinct by SHA-1 of the case JSON")
 ASSUMPTIONS = ["hash seeds are sampled (2^32 values), not enumerated",
@@ -31,8 +33,8 @@ ASSUMPTIONS = ["hash seeds are sampled (2^32 values), not enumerated",
                "every conversion receives a fresh deep copy of its input (pyxform documents that it mutates a dict input)",
                "error messages of rejected forms are compared too (same bytes), which is slightly more than the statement demands of results"]
 BUDGET = {"quick": 1100, "thorough": 40000}
-REQUIRED_LABELS = ["kind:seeds", "kind:history", "kind:threads", "kind:stress", "history:repeat-after-other", "history:regen", "threads:switches>=3",
-                   "seeds:accepted", "feature:no-headers", "feature:or-other-translated", "feature:namespaces", "feature:single-colon-headers", "feature:invalid-choice-headers", "feature:instance-in-label", "feature:late-language-codes", "kind:cold"]
+REQUIRED_LABELS = ["kind:seeds", "kind:history", "kind:threads", "kind:stress", "history:repeat-after-other", "history:regen", "threads:switches>=3", "threads:focus-switches>=3",
+                   "seeds:accepted", "feature:no-headers", "feature:or-other-translated", "feature:namespaces", "feature:single-colon-headers", "feature:invalid-choice-headers", "feature:instance-in-label", "feature:late-language-codes", "feature:pulldata-several-files", "kind:cold"]
 
 REPO = os.environ.get("VERIF_REPO", "/repo")
 HERE = os.path.dirname(os.path.dirname(os.path.dirname(os.path.abspath(__file__))))
@@ -99,14 +101,18 @@ def fresh_answer(job, cache):
     anything forks a pristine child for every request"""
     key = json.dumps(job, sort_keys=True)
     if key not in cache:
-        if _TEMPLATE and _OWNER.get("template") != os.getpid():
-            del _TEMPLATE[:]
-        if not _TEMPLATE:
-            _OWNER["template"] = os.getpid()
-            _TEMPLATE.append(Worker(0))
-            atexit.register(lambda: [w.close() for w in _TEMPLATE])
-        cache[key] = _TEMPLATE[0].ask(dict(job, op="fresh"))
+        cache[key] = template().ask(dict(job, op="fresh"))
     return cache[key]
+
+
+def template():
+    if _TEMPLATE and _OWNER.get("template") != os.getpid():
+        del _TEMPLATE[:]
+    if not _TEMPLATE:
+        _OWNER["template"] = os.getpid()
+        _TEMPLATE.append(Worker(0))
+        atexit.register(lambda: [w.close() for w in _TEMPLATE])
+    return _TEMPLATE[0]
 
 
 def triple(r):
@@ -146,15 +152,30 @@ def _form(draw, g_holder):
         feats.add("misspelled-sheets")
     if any("or_other" in n["c"].get("type", "") for n, _ in model.walk(form["nodes"])) and g.langs:
         feats.add("or-other-translated")
-    if form.get("lists") and g.p("_", 0.2):
-        # a label with two instance() expressions (documented dynamic label); the same text recurs across forms and calls
+    if form.get("lists") and g.p("_", 0.3):
+        # a label with two instance() expressions (documented dynamic label)
         ln = form["lists"][0]["name"]
         qs_ = [n for n, _ in model.walk(form["nodes"]) if n["k"] == "q" and "label" in n["c"] and "calculation" not in n["c"] and "trigger" not in n["c"]
                and n["c"].get("type", "").split(" ")[0] in ("text", "integer", "note", "date")]
         if qs_:
+            refs = [q["c"]["name"] for q in qs_ if q["c"].get("name")]
             for n in qs_[: g.integer(1, 2)]:
-                n["c"]["label"] = f"First instance('{ln}')/root/item[name = 'c1']/label then instance('{ln}')/root/item[name = 'c2']/label end"
+                # sometimes the very same text in every form (cached parse), sometimes one of its own
+                tag = "" if g.p("_", 0.4) else str(g.integer(0, 9999))
+                others = [x for x in refs if x != n["c"].get("name")]
+                pred = "${%s}" % g.pick(others) if others and g.p("_", 0.5) else "'c1'"
+                n["c"]["label"] = (f"First{tag} instance('{ln}')/root/item[name = {pred}]/label then instance('{ln}')/root/item[name = 'c2']/label end")
             feats.add("instance-in-label")
+    if g.p("_", 0.2):
+        # one question consulting several pulldata() files from different logic columns: each file is declared as an instance
+        qs_ = [n for n, _ in model.walk(form["nodes"]) if n["k"] == "q" and n["c"].get("type", "").split(" ")[0] in ("text", "integer", "decimal", "date")
+               and "trigger" not in n["c"] and "calculation" not in n["c"]]
+        if qs_:
+            files = g.shuffled(["pdfa", "pdfb", "pdfc", "pdfd", "pdfe"])
+            for n in qs_[: g.integer(1, 2)]:
+                for col, f in zip(g.shuffled(["relevant", "constraint", "required", "readonly"])[: g.integer(2, 4)], files):
+                    n["c"][col] = f"pulldata('{f}', 'c', 'k', 'v{g.integer(0, 9)}') = 'y'"
+            feats.add("pulldata-several-files")
     if g.p("_", 0.15):
         # languages whose codes sit late in the registry files
         for n, _ in model.walk(form["nodes"]):
@@ -211,7 +232,8 @@ def _cases(draw):
         k = g0.integer(2, 4)
         jobs = [g0.integer(0, len(forms) - 1) for _ in range(k)]
         schedule = [[g0.pick([1, 1, 2, 3, 5, 8, 13, 40, 100, 400]), g0.integer(0, k - 1)] for _ in range(g0.integer(3, 40))]
-        return {"kind": "threads", "forms": forms, "jobs": jobs, "schedule": schedule, "w": g0.integer(0, 3)}
+        picks = [g0.integer(0, 10 ** 6) for _ in range(4)] if g0.p("_", 0.7) else []
+        return {"kind": "threads", "forms": forms, "jobs": jobs, "schedule": schedule, "w": g0.integer(0, 3), "picks": picks}
     return {"kind": "stress", "forms": forms, "threads": g0.pick([4, 8, 12]), "rounds": g0.integer(2, 4), "w": g0.integer(0, 3)}
 
 
@@ -369,6 +391,22 @@ def evaluate(case) -> Outcome:
                 what, detail = describe(triple(ref), triple(r or {"status": "missing"}))
                 out.fail("C14.same-under-schedule", what, f"{res['switches']} switches: {detail}")
         distinct = len({json.dumps(j, sort_keys=True) for j in jobs}) > 1
+        if case.get("picks") and distinct:
+            # race-directed schedules: a function sampled from job 0's own call trace becomes the switch point, in a pristine child
+            fres = template().ask({"op": "focus", "jobs": jobs, "picks": case["picks"]})
+            if "error" in fres:
+                raise RuntimeError(f"worker error: {fres['error']}\n{fres.get('trace', '')}")
+            for run in fres["runs"]:
+                if run.get("hung"):
+                    raise RuntimeError("controlled scheduler hung (focus)")
+                if run["switches"] >= 3:
+                    out.label("threads:focus-switches>=3")
+                for j, r in zip(jobs, run["results"]):
+                    ref = fresh_answer(j, cache)
+                    out.checked("C14.same-under-schedule")
+                    if r is None or triple(r) != triple(ref):
+                        what, detail = describe(triple(ref), triple(r or {"status": "missing"}))
+                        out.fail("C14.same-under-schedule", what, f"switching at every entry of {run['key'][0]}:{run['key'][1]} ({run['switches']} switches): {detail}")
         if res["switches"] >= 3 and distinct:
             out.label("threads:switches>=3")
             out.nontrivial = True
